@@ -628,3 +628,23 @@ Proof.
   - intros g Hg. split; [now apply FF | now apply FR].
   - cbn [app]. now apply Hall.
 Qed.
+
+(* ------------------------------------------------------------------ the learner step of the model is learner_elem *)
+Lemma learner_step_is_elem body c f ms sm i ls ls' :
+  fspec f = Some ms -> shape_of c f = Ok sm ->
+  learner_step body c f (Some i) ls = ROk ls' ->
+  let stores := stores_of (ls_store ls) f (prod (ext_of (snd sm) (fst sm))) in
+  (forallb (fun st => has_index st i) stores = true /\ ls' = ls)
+  \/ exists kw st,
+       func_kwargs_sel c (ls_store ls) f = Ok kw
+       /\ learner_elem body f ms kw (fst sm) (snd sm) {| m_stores := stores; m_results := []; m_tr := ls_tr ls |} i = ROk st
+       /\ ls_store ls' = put_stores (ls_store ls) f (m_stores st) /\ ls_tr ls' = m_tr st.
+Proof.
+  intros Hms Hsm H. cbn zeta. unfold learner_step in H. rewrite Hms, Hsm in H. cbn [lift rbind] in H.
+  destruct (forallb _ _) eqn:Eh.
+  - left. split; [reflexivity|]. now injection H as <-.
+  - right. destruct (func_kwargs_sel c (ls_store ls) f) as [kw|]; cbn [lift rbind] in H; [|discriminate].
+    destruct (compute_elem _ _ _ _ _ _ _ _) as [st|] eqn:Ec; cbn [rbind] in H; [|discriminate].
+    injection H as <-. exists kw, st. split; [reflexivity|]. split; [|split; reflexivity].
+    unfold learner_elem. cbn [m_stores]. rewrite Eh. exact Ec.
+Qed.
